@@ -55,6 +55,8 @@ var kernels = []kernel{
 	{Name: "provider_uriGuard", Dir: "pkg/versions/1_0/txnprovider", Func: "validateURI", Kind: "guard", Mention: "MaxCasURILength"},
 	{Name: "provider_sizeGuard", Dir: "pkg/versions/1_0/txnprovider", Func: "readFromCAS", Kind: "guard", Mention: "maxSize", Nth: 0},
 	{Name: "provider_decompGuard", Dir: "pkg/versions/1_0/txnprovider", Func: "readFromCAS", Kind: "guard", Mention: "maxDecompressedSize"},
+	{Name: "validator_idLenGuard", Dir: "pkg/versions/1_0/operationparser/patchvalidator", Func: "validateID", Kind: "guard", Mention: "maxIDLength"},
+	{Name: "validator_serviceTypeLenGuard", Dir: "pkg/versions/1_0/operationparser/patchvalidator", Func: "validateServiceType", Kind: "guard", Mention: "maxServiceTypeLength"},
 	{Name: "provider_decompMax", Dir: "pkg/versions/1_0/txnprovider", Func: "readFromCAS", Kind: "assign", Mention: "maxDecompressedSize"},
 }
 
@@ -69,6 +71,7 @@ var opFields = map[string]string{
 }
 
 type tr struct {
+	consts   map[string]string // package-level integer constants (name -> literal)
 	vars     map[string]bool // free Z variables (parameters, lens)
 	order    []string
 	params   map[string]bool   // protocol fields read
@@ -116,6 +119,9 @@ func (t *tr) expr(e ast.Expr) string {
 		switch x.Name {
 		case "true", "false":
 			return x.Name
+		}
+		if v, ok := t.consts[x.Name]; ok && !t.vars[x.Name] {
+			return v
 		}
 		return t.useVar(x.Name)
 	case *ast.UnaryExpr:
@@ -294,6 +300,33 @@ func (t *tr) body(stmts []ast.Stmt, errType bool) string {
 	return t.fail("statement %T", stmts[0])
 }
 
+// intConsts collects the package-level constants whose value is an integer literal.
+func intConsts(files []*ast.File) map[string]string {
+	m := map[string]string{}
+	for _, f := range files {
+		for _, d := range f.Decls {
+			gd, ok := d.(*ast.GenDecl)
+			if !ok || gd.Tok != token.CONST {
+				continue
+			}
+			for _, sp := range gd.Specs {
+				vs, ok := sp.(*ast.ValueSpec)
+				if !ok {
+					continue
+				}
+				for i, n := range vs.Names {
+					if i < len(vs.Values) {
+						if bl, ok := vs.Values[i].(*ast.BasicLit); ok && bl.Kind == token.INT {
+							m[n.Name] = bl.Value
+						}
+					}
+				}
+			}
+		}
+	}
+	return m
+}
+
 func findFunc(files []*ast.File, name string) *ast.FuncDecl {
 	for _, f := range files {
 		for _, d := range f.Decls {
@@ -378,7 +411,7 @@ func main() {
 			failures = append(failures, fmt.Sprintf("%s: function %s not found in %s", k.Name, k.Func, k.Dir))
 			continue
 		}
-		t := &tr{vars: map[string]bool{}, params: map[string]bool{}, elem: map[string]string{}, opVars: map[string]bool{}, boolVars: map[string]bool{},
+		t := &tr{consts: intConsts(files), vars: map[string]bool{}, params: map[string]bool{}, elem: map[string]string{}, opVars: map[string]bool{}, boolVars: map[string]bool{},
 			selfFn: map[string]string{}}
 		for _, o := range kernels {
 			if o.Dir == k.Dir && o.Kind == "func" && o.Name != k.Name {
